@@ -884,7 +884,16 @@ class Interp(object):
             self.closure_nodes = {}
         self.closure_nodes[id(node)] = (node, self.cur_func)
         env = {k: v for k, v in st.frames[-1].items() if not k.startswith("@")}
-        return st.alloc(HObj("function", {"__name__": name, "@node": id(node), "@env": tuple(sorted(env.items(), key=lambda kv: kv[0]))},
+        # default values are evaluated once, where the function is defined
+        defaults = []
+        for d in node.args.defaults:
+            outs = self.eval(st, d)
+            if len(outs) == 1 and outs[0][1] == "val" and outs[0][0] is st:
+                defaults.append(outs[0][2])
+            else:
+                defaults.append(Top("default:" + unparse(d), False))
+        return st.alloc(HObj("function", {"__name__": name, "@node": id(node), "@env": tuple(sorted(env.items(), key=lambda kv: kv[0])),
+                                          "@defaults": tuple(defaults)},
                              kind="closure", label="closure " + name))
 
     def call_closure(self, st, ref, args, kwargs, node):
@@ -907,11 +916,12 @@ class Interp(object):
             if p in kwargs:
                 frame[p] = kwargs[p]
         nd = len(a.defaults)
+        dvals = o.fields.get("@defaults", ())
         for i, d in enumerate(a.defaults):
             p = params[len(params) - nd + i]
             if p not in frame or (p not in kwargs and params.index(p) >= len(args)):
                 if p not in kwargs and params.index(p) >= len(args):
-                    frame[p] = self.const_default(d, owner.module if owner else None)
+                    frame[p] = dvals[i] if i < len(dvals) else self.const_default(d, owner.module if owner else None)
         st.frames.append(frame)
         saved = self.cur_func
         self.cur_func = owner
